@@ -20,6 +20,7 @@ from . import valueset as VS
 from .dispatch import strip_conv
 
 LEVEL = "other"
+CONFIGS = ["k0", "k1", "k2", "k3", "k4", "k5", "k6", "k7", "k9", "kL"]      # kL: logging compiled in -- the arguments of a log statement on the parse path must be total too
 
 FN = "<ctap1::Request<'a> as core::convert::TryFrom<iso7816::command::CommandView<'a>>>"
 FN2 = "<ctap1::Request<'a> as core::convert::TryFrom<&'a iso7816::command::Command<S>>>"
@@ -383,6 +384,8 @@ def analyse(F, fn):
             d["cb"] = sym.lookup(p, cbs[0][1]) in (S.OK, S.SOME)
         data_atoms = []
         for i, a in enumerate(p.atoms):
+            if is_log_atom(a):
+                continue          # whether a log statement is enabled (configuration kL) decides nothing about the result
             if cla_t is not None and VS.mentions(a[1], cla_t) or ins_t is not None and VS.mentions(a[1], ins_t) or a in cbs or (a[0] in ("is", "isnot") and P.is_instr(a[1])):
                 continue
             data_atoms.append((i, a))
@@ -421,9 +424,27 @@ def analyse(F, fn):
         d["outcome"] = "panic" if (p.done and p.done[0] == "panic") or p.done == "diverge" else "ok" if r and r[0] == "ctor" and r[1] == S.OK else "err" if r and r[0] == "ctor" and r[1] == S.ERR else "other"
         d["value"] = r[2][0] if d["outcome"] in ("ok", "err") and r[2] else None
         out.append(d)
+    # paths that differ only in whether a log statement was enabled are one path of the parser; the bounds obligations of the
+    # arguments of the log statement (evaluated only when it is enabled) are kept
+    merged, order = {}, []
+    for d in out:
+        k2 = (tuple(a for a in d["p"].atoms if not is_log_atom(a)), d["p"].result, d["p"].done)
+        if k2 in merged:
+            have = {(w, ok, why) for w, ok, why in merged[k2]["obligations"]}
+            merged[k2]["obligations"] = merged[k2]["obligations"] + [o for o in d["obligations"] if o not in have]
+            merged[k2]["unread"] = merged[k2]["unread"] + [u for u in d["unread"] if u not in merged[k2]["unread"]]
+        else:
+            merged[k2] = d
+            order.append(k2)
+    out = [merged[k2] for k2 in order]
     res = (sym, P, out)
     _CACHE[key] = res
     return res
+
+
+def is_log_atom(a):
+    """a path condition of the `log` crate's level filter (`Debug <= log::max_level()`), present when logging is compiled in"""
+    return any(x[0] in ("call", "path", "static", "const") and len(x) > 1 and isinstance(x[1], str) and x[1].startswith("log::") for x in S.subterms(a[1]))
 
 
 def expected(ins, cb_ok, L, K):
